@@ -188,6 +188,78 @@ impl C18 {
         }
     }
 
+    /// containers with more than 2^16 elements: one bulk history each, contents compared with plain vectors
+    fn big_containers(&self, ctx: &mut Ctx, rng: &mut Rng) {
+        // BitEnc: push_values up to just below 2^16, pushes across it, another bulk fill, sets on both sides
+        let w = rng.range(1, 8);
+        let ops: Vec<(u8, usize, u8)> = {
+            let mut o = vec![(1u8, 65_530usize, rng.below(256) as u8)];
+            for i in 0..12 {
+                o.push((0, 0, (i * 29 + 3) as u8));
+            }
+            o.push((1, 5_000, rng.below(256) as u8));
+            o.push((0, 0, 0xff));
+            o.push((3, 0, 0));
+            o
+        };
+        self.bitenc_history(ctx, rng, w, 0, Some(&ops));
+        // SmallInts<u8, usize>: 70 000 values, every 997th one big, then sets big -> small and small -> big beyond index 2^16
+        let n = 70_000usize;
+        let mut si: SmallInts<u8, usize> = SmallInts::new();
+        let mut shadow: Vec<usize> = Vec::with_capacity(n);
+        let r = guard(|| {
+            for i in 0..n {
+                let v = if i % 997 == 0 { 1_000_000 + i } else { i % 251 };
+                si.push(v);
+                shadow.push(v);
+            }
+            for &i in &[65_535usize, 65_536, 65_537, 69_790, 69_999] {
+                let v = if shadow[i] > 255 { 7 } else { 300 + i };
+                si.set(i, v);
+                shadow[i] = v;
+            }
+            (si.len(), si.iter().collect::<Vec<usize>>(), si.decompress(), (0..n).step_by(13).chain(65_530..65_545).all(|i| si.get(i) == Some(shadow[i])), si.get(n))
+        });
+        ctx.eval(n as u64);
+        match r {
+            Err(p) => ctx.violation(&format!("smallints:panic:{}", panic_site(&p)), Obj::new().s("case", "70000 values").s("what", &p).done()),
+            Ok((len, it, dec, gets_ok, beyond)) => {
+                if len != n || it != shadow || dec != shadow || !gets_ok || beyond.is_some() {
+                    let at = it.iter().zip(&shadow).position(|(a, b)| a != b);
+                    ctx.violation("smallints:differs-from-vector", Obj::new().s("case", "70000 values").s("what", &format!("len {} first iter difference {:?} decompress equal {} gets ok {} get(len) {:?}", len, at, dec == shadow, gets_ok, beyond)).done());
+                }
+            }
+        }
+        // Fenwick sum tree over 70 000 slots
+        let mut ft: FenwickTree<u64, SumOp> = FenwickTree::new(n);
+        let mut raw = vec![0u64; n];
+        let r = guard(|| {
+            for _ in 0..3000 {
+                let i = if rng.chance(1, 4) { 65_500 + rng.usize(100) } else { rng.usize(n) };
+                let v = rng.below(1000);
+                ft.set(i, v);
+                raw[i] += v;
+            }
+            let mut acc = 0u64;
+            let mut bad = None;
+            for i in 0..n {
+                acc += raw[i];
+                if (i % 53 == 0 || (65_400..65_700).contains(&i) || i + 3 >= n) && ft.get(i) != acc {
+                    bad = Some((i, ft.get(i), acc));
+                    break;
+                }
+            }
+            bad
+        });
+        ctx.eval(3000);
+        match r {
+            Err(p) => ctx.violation(&format!("fenwick:panic:{}", panic_site(&p)), Obj::new().s("case", "70000 slots").s("what", &p).done()),
+            Ok(Some((i, g, e))) => ctx.violation("fenwick:sum<u64>:prefix-wrong", Obj::new().s("case", "70000 slots, 3000 updates").s("what", &format!("get({}) = {} expected {}", i, g, e)).done()),
+            Ok(None) => {}
+        }
+        ctx.count("containers_with_more_than_65536_elements", 3);
+    }
+
     fn smallints_history(&self, ctx: &mut Ctx, rng: &mut Rng) {
         macro_rules! run {
             ($s:ty, $b:ty, $name:expr) => {{
@@ -326,7 +398,12 @@ impl Monitor for C18 {
                     ops.push((1, 2 * per + 1, 0xaa));
                     self.bitenc_history(ctx, rng, w, 0, Some(&ops));
                 }
-                10..=15 => self.smallints_history(ctx, rng),
+                15 => {
+                    if !ctx.tiny() {
+                        self.big_containers(ctx, rng)
+                    }
+                }
+                10..=14 => self.smallints_history(ctx, rng),
                 _ => self.fenwick_history(ctx, rng),
             }
             return;
